@@ -85,8 +85,23 @@ func (g *Gen) absent() IVal {
 	return strV(Pick(g.R, absentStrings))
 }
 
-// Input generates input data for a node in Parse mode.
+// Input generates input data for a node in Parse mode.  With probability PValid a primitive node
+// gets an input its own schema accepts (found by trying candidates against the real schema).
 func (g *Gen) Input(n *Node) IVal {
+	if IsPrim(n.Kind) && g.P.PValid > 0 && g.R.P(g.P.PValid) {
+		probe := Build(&Recorder{}, n, false)
+		for try := 0; try < 12; try++ {
+			v := g.inputRaw(n)
+			dest := reflect.New(TypeOf(n))
+			if o := Exec(probe, false, v.Go(nil), dest, &Recorder{}); o.Panic == "" && o.Nil {
+				return v
+			}
+		}
+	}
+	return g.inputRaw(n)
+}
+
+func (g *Gen) inputRaw(n *Node) IVal {
 	r := g.R
 	if r.P(g.P.PAbsent) {
 		return g.absent()
@@ -254,6 +269,21 @@ func (g *Gen) wrong() IVal {
 
 // DestValue generates a value of the destination type (Validate subjects, prefilled Parse destinations).
 func (g *Gen) DestValue(n *Node, t reflect.Type, populated bool) reflect.Value {
+	if IsPrim(n.Kind) && g.P.PValid > 0 && g.R.P(g.P.PValid) {
+		probe := Build(&Recorder{}, n, true)
+		for try := 0; try < 12; try++ {
+			v := g.destRaw(n, t, populated)
+			dest := reflect.New(t)
+			dest.Elem().Set(v)
+			if o := Exec(probe, true, nil, dest, &Recorder{}); o.Panic == "" && o.Nil {
+				return v
+			}
+		}
+	}
+	return g.destRaw(n, t, populated)
+}
+
+func (g *Gen) destRaw(n *Node, t reflect.Type, populated bool) reflect.Value {
 	r := g.R
 	v := reflect.New(t).Elem()
 	zero := !populated && r.P(g.P.PAbsent)
